@@ -2,7 +2,13 @@
 
 A statement is `<MNEMONIC>[.B|.W] <operand>[,<operand>]`; the driver gets `<size> (<kind> <reg> <value>)*`
 (size 0 none / 1 .B / 2 .W / 3 another letter; kind 0 Rn, 1 x(Rn), 2 ADDR, 3 &ADDR, 4 @Rn, 5 @Rn+, 6 #N, 7 #>N).
-Operand text (register aliases PC/SP/SR, `*Rn` for `@Rn`, number spelling, letter case) is chosen here.
+Operand text (built-in names PC/SP/SR, `*Rn` for `@Rn`, number spelling, letter case) is chosen here.
+
+Register operands are written literally or through a SYMBOLIC ALIAS: the source starts with the alias family `ALIAS_DEFS`
+(for each of R0..R15, PC, SP, SR: REG, EQU, SET of the name, REG of the EQU, EQU of the REG, REG of the REG, EQU of EQU of
+REG).  Which register an alias denotes is asked from the Lean SPEC (`Spec/Isa/IMsp430Reg.denote`, driver mode `c14reg`),
+the MODEL of `DecodeReg` over the symbol table (`Model/Isa/IMsp430Reg`) is compared with it in the same call; the number
+the SPEC gives is the register of the statement the existing instruction SPEC judges.
 
 Enumerated: the SPEC's complete mnemonic list x size attribute x every addressing mode x every register (R3/CG2 and,
 for pointer modes, R2 are refused) x values at 0, the field limits, limits +-1/+-2, the six constant-generator values and
@@ -17,9 +23,34 @@ SIG_ZERO_PC = "msp430-zero-disp-pc-source-becomes-indirect"
 SIG_RLA_DIST = "msp430-rla-rlc-pcrel-displacement-sign-check"
 SIG_POP_IMM = "msp430-pop-immediate-0-1-accepted"
 SIG_RLA_ABS0 = "msp430-rla-rlc-abs-zero-becomes-const4"
+SIG_REG_RADIX = "msp430-symbol-spelled-like-radix-number-taken-as-register"
+
+# user symbols (plain integer EQUs) whose names are `R` + something ConstLongInt() reads as a number below 16 in another radix
+RADIX_LABELS = [("rh", 0x1230), ("ro", 0x1232), ("rah", 0x1234), ("rfh", 0x1236), ("r0h", 0x1238), ("r7o", 0x123a), ("r1o", 0x123c), ("rch", 0x123e)]
 
 K_REG, K_IDX, K_SYM, K_ABS, K_IND, K_INC, K_IMM, K_IMML = range(8)
 CG = [0, 1, 2, 4, 8, -1]
+
+
+def _alias_family():
+    """[(alias, directive, right side)] in source order: every register name through every definition shape"""
+    defs = []
+    bases = ["r%d" % n for n in range(16)] + ["pc", "sp", "sr"]
+    for b in bases:
+        defs.append(("r_" + b, "reg", b.upper() if len(defs) % 3 == 0 else b))
+        defs.append(("e_" + b, "equ", b))
+        defs.append(("s_" + b, "set", b))
+    for b in bases:
+        defs.append(("re_" + b, "reg", "e_" + b))
+        defs.append(("er_" + b, "equ", "R_" + b))
+        defs.append(("rr_" + b, "reg", "r_" + b))
+    for b in bases:
+        defs.append(("eer_" + b, "equ", "er_" + b))
+        defs.append(("rs_" + b, "reg", "s_" + b))
+    return defs
+
+
+ALIAS_DEFS = _alias_family()
 
 
 class T:
@@ -27,11 +58,40 @@ class T:
     cpus = [("MSP430", 0)]
     sentinel = 0xFF00
     gran = 1
-    sample_tags = ("two-src", "jump-limits", "rla-pcrel", "one")
+    sample_tags = ("two-src", "jump-limits", "rla-pcrel", "one", "alias-src", "alias-dst")
 
     @staticmethod
     def header(cpuname):
-        return ["\tcpu %s" % cpuname]
+        return ["\tcpu %s" % cpuname] + ["%s\t%s\t%s" % d for d in ALIAS_DEFS] + ["%s\tequ\t%d" % d for d in RADIX_LABELS]
+
+    # register number -> alias names, filled from the Lean SPEC by resolve_aliases()
+    aliases = None
+    alias_problems = []
+
+    @classmethod
+    def resolve_aliases(cls):
+        from .. import common
+        defs = " ".join("%s=%s" % (a, r) for (a, _d, r) in ALIAS_DEFS)
+        names = [a for (a, _d, _r) in ALIAS_DEFS]
+        # also asked: literal names, an undefined name, a right side of the family used before its definition does not occur
+        probes = names + ["r%d" % n for n in range(16)] + ["PC", "sp", "Sr", "r16", "r99", "nosuchreg"]
+        ans = common.driver("c14reg", ["%s %s" % (n, defs) for n in probes])
+        cls.aliases = {n: [] for n in range(16)}
+        cls.alias_problems = []
+        for n, a in zip(probes, ans):
+            kv = dict(x.split("=", 1) for x in a.split() if "=" in x)
+            if "spec" not in kv or kv.get("model") != kv.get("spec"):
+                cls.alias_problems.append("MODEL of DecodeReg and SPEC denote differ on the name %s: %s" % (n, a))
+                continue
+            if n in names:
+                if kv["spec"] == "none":
+                    cls.alias_problems.append("SPEC: alias %s of the family denotes no register" % n)
+                else:
+                    cls.aliases[int(kv["spec"])].append(n)
+
+    @classmethod
+    def pre_problems(cls):
+        return list(cls.alias_problems)
 
     @staticmethod
     def org(a):
@@ -46,15 +106,33 @@ class T:
         return bytes([k % 100 + 1])
 
     # ---- operand text
-    @staticmethod
-    def reg(rng, n):
+    @classmethod
+    def reg(cls, rng, n):
         if n >= 16:
             return "R%d" % (n + 83)            # R99..: not a register (an undefined symbol)
+        if cls.aliases and cls.aliases[n] and rng.random() < 0.3:
+            t = rng.choice(cls.aliases[n])
+            return t.upper() if rng.random() < 0.3 else t
         if n < 3 and rng.random() < 0.4:
             t = ["PC", "SP", "SR"][n]
         else:
             t = "R%d" % n
         return t.lower() if rng.random() < 0.4 else t
+
+    @classmethod
+    def opd_alias(cls, rng, a, name):
+        """operand `a` with its register written as the alias `name`"""
+        k, r, v = a
+        nm = name.upper() if rng.random() < 0.3 else name
+        if k == K_REG:
+            return nm
+        if k == K_IDX:
+            return "%s(%s)" % (num_intel(rng, v), nm)
+        if k == K_IND:
+            return ("@" if rng.random() < 0.8 else "*") + nm
+        if k == K_INC:
+            return ("@" if rng.random() < 0.8 else "*") + nm + "+"
+        raise AssertionError(k)
 
     @classmethod
     def opd(cls, rng, a):
@@ -124,6 +202,7 @@ class T:
     def cases(cls, rng, tier, forms):
         out = []
         quick = tier == "quick"
+        cls.resolve_aliases()
         pcs = [0x0000, 0x0200, 0x7ffc, 0x8000, 0xc000, 0xfdf0] + [2 * rng.randrange(0, 0x7e00) for _ in range(2 if quick else 8)]
 
         def add(pc, mn, size, ops, tag):
@@ -138,6 +217,52 @@ class T:
 
         plain_src = [(K_REG, 4, 0), (K_REG, 15, 0), (K_IDX, 6, 10), (K_SYM, 0, 0x1234), (K_ABS, 0, 0x220), (K_IND, 7, 0), (K_INC, 8, 0), (K_IMM, 0, 1), (K_IMM, 0, 100)]
         plain_dst = [(K_REG, 5, 0), (K_REG, 0, 0), (K_REG, 2, 0), (K_IDX, 9, 4), (K_IDX, 1, 65534), (K_SYM, 0, 0x4321), (K_ABS, 0, 0x100), (K_IDX, 0, 6), (K_IND, 10, 0)]
+        # ---- class "alias": every alias of the family (each definition shape of each register name) in every register-bearing
+        # operand kind and position of the two-operand and one-operand formats; the other operand literal or another alias
+        def add_alias(pc, mn, size, ops, names, tag):
+            args = [size]
+            for a in ops:
+                args += list(a)
+            m = mn.lower() if rng.random() < 0.5 else mn
+            at = cls.ATTR[size]
+            txt = ",".join(cls.opd_alias(rng, a, nm) if nm else cls.opd(rng, a) for a, nm in zip(ops, names))
+            out.append(Case("msp430", 0, pc, mn, args, "\t%s%s %s" % (m, at, txt), tag))
+
+        two = [mn for (mn, form, _c) in forms if form == "two"]
+        one = [mn for (mn, form, _c) in forms if form in ("one", "oneW")]
+        dsts = [mn for (mn, form, _c) in forms if form in ("dst", "pop", "dstInc", "br")]
+        kinds_src = [K_REG, K_IND, K_INC, K_IDX]
+        for n in range(16):
+            for nm in (cls.aliases[n] if cls.aliases else []):
+                for k in kinds_src:
+                    if k == K_INC and n == 0:
+                        continue
+                    x = rng.choice([2, -2, 4, 100, 254, 32767, -32768]) if k == K_IDX else 0
+                    size = rng.choice([0, 0, 1, 2])
+                    if two:
+                        add_alias(rng.choice(pcs), rng.choice(two), size, [(k, n, x), rng.choice(plain_dst)], [nm, None], "alias-src")
+                    if one and (quick is False or rng.random() < 0.5):
+                        mn1 = rng.choice(one)
+                        add_alias(rng.choice(pcs), mn1, 0 if rng.random() < 0.7 else 2, [(k, n, x)], [nm], "alias-one")
+                for k in (K_REG, K_IDX):
+                    x = rng.choice([2, -2, 4, 100, 254, 32767, -32768]) if k == K_IDX else 0
+                    if two:
+                        add_alias(rng.choice(pcs), rng.choice(two), rng.choice([0, 0, 1, 2]), [rng.choice(plain_src), (k, n, x)], [None, nm], "alias-dst")
+                    if dsts and (quick is False or rng.random() < 0.5):
+                        add_alias(rng.choice(pcs), rng.choice(dsts), rng.choice([0, 0, 1]), [(k, n, x)], [nm], "alias-emul")
+                # alias on both sides
+                m2 = rng.randrange(16)
+                if two and cls.aliases and cls.aliases[m2]:
+                    add_alias(rng.choice(pcs), rng.choice(two), 0, [(rng.choice(kinds_src[:2] + [K_IDX]), n, 6), (rng.choice([K_REG, K_IDX]), m2, 8)],
+                              [nm, rng.choice(cls.aliases[m2])], "alias-both")
+        # ---- class "label-like-register": an integer symbol as symbolic / absolute operand whose NAME reads like a register number
+        for (nm, val) in RADIX_LABELS:
+            for k in (K_SYM, K_ABS):
+                t = ("&" if k == K_ABS else "") + (nm.upper() if rng.random() < 0.3 else nm)
+                if two:
+                    mn2 = rng.choice(two)
+                    out.append(Case("msp430", 0, 0x200, mn2, [0, k, 0, val, K_REG, 5, 0], "\t%s %s,r5" % (mn2.lower(), t), "label-like-register"))
+                    out.append(Case("msp430", 0, 0x200, mn2, [0, K_REG, 5, 0, k, 0, val], "\t%s r5,%s" % (mn2.lower(), t), "label-like-register"))
         first = {}
         for (mn, form, _mincpu) in forms:
             full = (not quick) or form not in first       # quick tier: the first mnemonic of a form gets the full operand set
@@ -231,6 +356,8 @@ class T:
         a = case.args
         ops = [tuple(a[i:i + 3]) for i in range(1, len(a) - 2, 3)]
         mn = case.mn
+        if case.tag == "label-like-register":
+            return SIG_REG_RADIX
         if mn in ("RLA", "RLC") and len(ops) == 1:
             k, r, v = ops[0]
             if k == K_ABS and v == 0:
